@@ -49,6 +49,17 @@ def make_form(rng, i):
         lst = tgt.children if tgt is not None else f.survey
         lst.insert(rng.randint(0, len(lst)), row)
 
+    # what makes a row with a calculation (or a trigger) user-visible: a label, or a hint alone
+    if rng.random() < 0.3:
+        for j in range(rng.randint(1, 3)):
+            t = rng.choice(["text", "integer", "decimal", "date", f"select_one {next(iter(f.choices))}"])
+            shown = rng.choice(["label", "hint", "both", "none"])
+            cells = {"calculation": rng.choice(["1 + 1", "today()", "'x'"])}
+            if shown in ("label", "both"):
+                cells["label"] = f"calc shown {j}"
+            if shown in ("hint", "both"):
+                cells["hint"] = f"calc hint {j}"
+            place(Row("q", t, f"cv{i}_{j}", cells))
     k = rng.randrange(8)
     if k == 0:  # every type at least sometimes
         for t in rng.sample(ALL_TYPES, 4):
@@ -65,8 +76,13 @@ def make_form(rng, i):
         ln = next(iter(f.choices))
         sk = rng.choice(["group", "group", "repeat"])  # table-list is honoured on repeats too
         g = Row(sk, f"begin {sk}", f"tl{i}", {"appearance": rng.choice(["table-list", "table-list compact"])})
-        if rng.random() < 0.7:
+        v = rng.random()
+        if v < 0.55:
             g.cells["label"] = "TL"
+        elif v < 0.8:
+            g.cells["hint"] = "TL hint only"  # a hint alone also asks for the generated label row
+        if v < 0.2:
+            g.cells["hint"] = "TL hint too"
         g.children = [Row("q", f"{rng.choice(['select_one', 'select_multiple'])} {ln}", f"tl{i}_{j}", {"label": f"t{j}"}) for j in range(rng.randint(1, 3))]
         if rng.random() < 0.3:
             g.children.insert(0, Row("q", "note", f"tl{i}_n", {"label": "before"}))
